@@ -170,10 +170,7 @@ func run(c *Case) (*outcome, *vkit.Violation, error) {
 			}
 		}
 		m.FromName = &fromName
-		saved := cl.Net.Before
-		cl.Net.Before = nil
-		_, err := cl.Net.Deliver(m)
-		cl.Net.Before = saved
+		_, err := cl.Net.DeliverRaw(m)
 		if in.Caller == "bystander-peer" {
 			o.bystanderDelivered++
 
